@@ -85,7 +85,18 @@ fn interp(req: &Value) -> R {
             Ok(s) => state_json(&s),
             Err(p) => json!({ "panic": p }),
         };
-        o["step"] = json!({"n_ok": n_ok, "end": end, "detail": detail, "last_ok": last_ok, "post": post, "script_index": a.script_index()});
+        // which script bit the interpreter was positioned on when it stopped (shallow description)
+        let at = match guarded(|| a.script_bits().get(a.script_index()).map(|b| match b {
+            ScriptBit::OpCode(c) => json!({ "op": *c as u8 }),
+            ScriptBit::Push(d) => json!({ "push": d.len() }),
+            ScriptBit::PushData(c, d) => json!({ "pd": *c as u8, "len": d.len() }),
+            ScriptBit::If { code, .. } => json!({ "if": *code as u8 }),
+            ScriptBit::Coinbase(d) => json!({ "cb": d.len() }),
+        })) {
+            Ok(v) => json!(v),
+            Err(p) => json!({ "panic": p }),
+        };
+        o["step"] = json!({"n_ok": n_ok, "end": end, "detail": detail, "last_ok": last_ok, "post": post, "script_index": a.script_index(), "at": at});
         if trace {
             o["step"]["trace"] = Value::Array(tr);
         }
